@@ -88,7 +88,14 @@ pub struct LimitCase {
     pub ns: i128,
     /// fixed offset in minutes for the zoned ops / string offsets
     pub off_min: i32,
+    /// to-zoned ops at the upper end only: instead of the offset zone, the named zone of the bundled provider that has
+    /// this offset (without a DST rule) in the far future, end to end through the crate's own tz data reader
+    #[serde(default)]
+    pub named: bool,
 }
+
+/// rule-less zones of the bundled data and their offsets (minutes) after their last transition
+const NAMED_LIMIT_ZONES: [(&str, i32); 4] = [("Asia/Tokyo", 540), ("Asia/Kolkata", 330), ("America/Bogota", -300), ("Pacific/Kiritimati", 840)];
 pub struct LimitSub;
 
 fn in_range_date(day: i64) -> bool {
@@ -205,8 +212,18 @@ impl SubCheck for LimitSub {
                 if !in_range_date(c.day) {
                     return o;
                 }
-                let tz = TimeZone::try_from_identifier_str(&fmt::offset_minutes(c.off_min as i64)).unwrap();
-                let prov = TableProvider::utc_only();
+                let named = if c.named { NAMED_LIMIT_ZONES.iter().find(|z| z.1 == c.off_min).map(|z| z.0) } else { None };
+                let tz = match named {
+                    Some(n) => TimeZone::IanaIdentifier(n.to_string()),
+                    None => TimeZone::try_from_identifier_str(&fmt::offset_minutes(c.off_min as i64)).unwrap(),
+                };
+                let prov = match named {
+                    Some(_) => crate::tzp::AnyProvider::Bundled(crate::tzp::bundled()),
+                    None => crate::tzp::AnyProvider::Table(TableProvider::utc_only()),
+                };
+                if named.is_some() {
+                    o = o.class("named-zone-through-the-bundled-provider").nontrivial(true);
+                }
                 let want = abs - off_ns;
                 let want_ok = dt_ok && instant_in_range(want);
                 let r = if c.op == LOp::DateToZoned {
@@ -320,6 +337,12 @@ impl SubCheck for LimitSub {
     }
 }
 
+/// the zoned part of the grid (try_new, PlainDate / PlainDateTime to zoned = start of day / wall-clock resolution,
+/// zoned strings) on the first and last representable days: also run by C14
+pub fn zoned_limit_cases() -> Vec<LimitCase> {
+    limit_cases().into_iter().filter(|c| matches!(c.op, LOp::ZonedTryNew | LOp::DateToZoned | LOp::DateTimeToZoned | LOp::ZonedFromStr)).collect()
+}
+
 fn limit_cases() -> Vec<LimitCase> {
     let mut v = vec![];
     let days: Vec<i64> = (-4..=4).flat_map(|k| [MIN_DAY + k, MAX_DAY + k]).chain([MIN_DAY + 30, MAX_DAY - 30, 0, -1]).collect();
@@ -331,10 +354,15 @@ fn limit_cases() -> Vec<LimitCase> {
                 let needs_off = matches!(op, LOp::ZonedTryNew | LOp::DateToZoned | LOp::DateTimeToZoned | LOp::InstantFromStr | LOp::ZonedFromStr);
                 if needs_off {
                     for &off_min in &offs {
-                        v.push(LimitCase { op, day, ns, off_min });
+                        v.push(LimitCase { op, day, ns, off_min, named: false });
+                    }
+                    if matches!(op, LOp::DateToZoned | LOp::DateTimeToZoned) && day > 0 {
+                        for z in NAMED_LIMIT_ZONES {
+                            v.push(LimitCase { op, day, ns, off_min: z.1, named: true });
+                        }
                     }
                 } else {
-                    v.push(LimitCase { op, day, ns, off_min: 0 });
+                    v.push(LimitCase { op, day, ns, off_min: 0, named: false });
                 }
             }
         }
